@@ -38,3 +38,18 @@ Definition get_module (b : bundle) (id : Z) : outcome (option bytes) :=
   if len =? 0 then Err ERamEntry else
   do data <- pread_bytes (b_bytes b) global (len - 1);
   Ok (Some data).
+
+(* RamBundleModuleIter: ids 0 .. count-1 in order, empty slots skipped, an entry that cannot be read yields an error item.
+   (`n` is the number of ids left; the drivers never evaluate this with a data-dependent count.) *)
+Fixpoint iter_from (b : bundle) (n : nat) (id : Z) : list (outcome (Z * bytes)) :=
+  match n with
+  | O => []
+  | S k =>
+    match get_module b id with
+    | Ok None => iter_from b k (id + 1)
+    | Ok (Some d) => Ok (id, d) :: iter_from b k (id + 1)
+    | Err e => Err e :: iter_from b k (id + 1)
+    | Panic p => Panic p :: iter_from b k (id + 1)
+    end
+  end.
+Definition iter_modules (b : bundle) : list (outcome (Z * bytes)) := iter_from b (Z.to_nat (b_count b)) 0.
